@@ -31,11 +31,21 @@ HInit2 ==
   \/ HInitWith(Cfg_false2, Prog_pool, {"w0"})   \* functor returns false on a pool thread: the wrapper clears func
   \/ HInitWith(Cfg_pool2, Prog_pcalls, {"w0"})  \* calls() and destructor racing with runs on the pool thread
 
-\* ---- thorough: three runs due at once (first returns false); pool, three runs (second returns false), cancel, calls, destructor; detached on a pool;
-\*      two tasks (pool + inline) created by two threads
+\* ---- thorough: pool, three runs due at once, the first returns false (kick-offs by the creator and the scheduler
+\*      thread against the wrapper's `func = {}`); detached task on a pool: the impl is destroyed by its last owner
+\*      (queue, kick-off or the wrapper's me.reset() on the pool thread)
+\*      (Cfg_pool3 with Prog_poolcan / Prog_pooldet of MCTimedTask.tla are too large with hb.)
+Prog_pdet2 == [main |-> <<O("new", 0), O("sched", 1), O("detach", 1), O("del", 1), O("tick", 0), O("tick", 0),
+                           O("stop", 0), O("delpool", 0)>>]
 HInit3 ==
   \/ HInitWith(Cfg_false3, Prog_pool, {"w0"})
-  \/ HInitWith(Cfg_pool3, Prog_poolcan, {"w0"})
-  \/ HInitWith(Cfg_pool3, Prog_pooldet, {"w0"})
-HInit4 == HInitWith(Cfg_two, Prog_two, {"w0"})
+  \/ HInitWith(Cfg_pool2, Prog_pdet2, {"w0"})
+\* ---- two tasks, two creating threads: task 2 is due at once (first run on p2, re-armed by p2 without the mutex,
+\*      pushed), task 1 is queued by main at the same time: the queue holds two impls and the comparator reads both;
+\*      p2 destroys its handle, then (sync) the clock advances and the scheduler thread pops both.
+\*      (Two fully concurrent drivers - Cfg_two / Prog_two of MCTimedTask.tla - exceed 15 million states with hb.)
+Cfg_two1  == [k \in {1, 2} |-> IF k = 1 THEN C(1, 0, 1, FALSE, TRUE, 0) ELSE C(0, 1, 2, TRUE, TRUE, 0)]
+Prog_two1 == [main |-> <<O("new", 0), O("sched", 1), O("sync", 0), O("tick", 0), O("del", 1), O("stop", 0)>>,
+              p2   |-> <<O("up", 0), O("sched", 2), O("del", 2)>>]
+HInit4 == HInitWith(Cfg_two1, Prog_two1, {})
 =============================================================================
